@@ -25,54 +25,75 @@ ASSUMPTIONS = [
     "the XSD reference knows general categories, \\w, \\d, \\i, \\c exactly for U+0000..U+00FF only (Xsd.v); blocks, literals, "
     "the wildcard and \\s are exact for all code points. Patterns that use categories are compared on Latin-1 strings only.",
     "patterns are C strings without a NUL byte; the size_t bracket counter of the block rewrite is modelled as an integer "
-    "tested against 0 (its magnitude is bounded by the pattern length, far below 2^64).",
+    "tested against 0 (its magnitude is bounded by the pattern length, far below 2^64); PCRE2_ENDANCHORED is defined (no "
+    "trailing '$' is appended).",
     "XSD 1.0 regular expressions (RFC 7950 refers to XSD-TYPES 2004): \\$ is not an XSD escape and is outside the reference "
-    "(libyang hands it to PCRE2 unchanged, theorem C18_rewrite_caret_dollar covers the text).",
+    "(libyang hands it to PCRE2 unchanged; C18_rewrite_caret_dollar covers the text only).",
+    "pattern-set and typedef-chain theorems: compiling a pattern expression to a matcher is abstract (any code_match), the "
+    "matcher is assumed not to fail on the value (else the error is passed on, C18_invert_match_error), the value's length is "
+    "its number of characters as ly_utf8len counts them, and the compile-time check that a derived length restricts its base is "
+    "not modelled (the generators nest the lengths).",
 ]
 
 TRUSTED = [
     "coq/XsdParse.v: the reading of the XSD concrete syntax into the AST of Xsd.v (project's reading of XSD part 2 appendix F), "
     "coq/Xsd.v tables of blocks and Latin-1 categories (transcribed by script)",
     "PCRE2 10.42 as linked, and the --wrap=pcre2_compile_8 interposer of impl/t_regex.c that records the rewritten text",
-    "the yangre binary built from the tree under check (run as a process by the EntryPoints oracle)",
+    "impl/t_regex.c: builds the YANG modules (typedef chains, union, list key), computes the expected conjunction of "
+    "single-pattern ly_pattern_match() answers and the length test itself, writes yangre's input files",
+    "the yangre binary built from the tree under check (run as a process by the EntryPoints oracle and by impl/t_regex.c for "
+    "YangreModes)",
 ]
 
 MANIFEST = {
-    "text": "Coq theorems (Properties_C18_regex.v, all closed under the global context): (1) the XSD reference matcher "
+    "text": "Coq theorems (Properties_C18_regex.v, all closed under the global context). (1) Reference: the XSD matcher "
             "(Brzozowski derivatives with quantifier counters, class negation and subtraction) accepts exactly the denotational "
-            "language of every regular expression (C18_match_correct); (2) about the textual rewrite libyang applies before "
-            "PCRE2, transcribed from lys_compile_type_pattern_check() and lys_compile_pattern_chblocks_xmlschema2perl(): it ends "
-            "for every pattern with a text or one of the three errors of the code - no undefined behaviour, no fuel "
-            "(C18_rewrite_total, C18_rewrite_no_ub); a pattern without blocks is handed over unchanged iff every ^/$ in it stands "
-            "inside brackets or is escaped (C18_rewrite_identity, any byte string); on every pattern made of ordinary bytes, escape pairs of any byte, bracket "
-            "expressions and unescaped ^/$ it inserts exactly one backslash before each unescaped ^/$ outside brackets and changes "
-            "nothing else (C18_rewrite_caret_dollar); a block \\p{IsNAME} is replaced by the range of NAME, with the range's own "
-            "brackets iff it stands outside brackets (C18_rewrite_block, C18_rewrite_block_depth, C18_block_lookup); on every "
-            "pattern without an escaped backslash whose block names are exact it IS the intended rewrite (C18_rewrite_eq_spec), and "
-            "it is not on the witnesses of the three remaining rewrite defects (C18_block_prefix_refuted, C18_block_specials_refuted, "
-            "C18_block_depth_refuted; the seeded regression classes C18-1 and C18-4 as refutations of variant models, "
-            "C18_prev_byte_variant_refuted, C18_carried_depth_variant_refuted); (3) list evaluation with invert-match accepts iff every pattern's match XOR inverted holds "
-            "(C18_invert_match), also when the patterns are spread over a typedef chain with invert-match at any level "
-            "(C18_invert_match_chain over the transcription of lys_compile_type_patterns(): inherited patterns first, each new "
-            "pattern with its own flag), and when levels of the chain restate length with or without patterns: the patterns "
-            "checked at the node are those of all levels and the length is the last one stated (C18_typeset_chain, "
-            "C18_typeset_validate over the transcription of the string case of lys_compile_type_()). Tie: the rewritten text is captured at pcre2_compile() and compared byte for byte with the model "
-            "(Rewrite); the answers of ly_pattern_match/lyd_value_validate are compared with the XSD reference on patterns generated "
-            "from the XSD grammar, exhaustively for small sizes over a small alphabet (Match); pattern lists with invert-match "
-            "(MatchList) and pattern sets over typedef chains of 1-4 levels (each level: nothing, patterns, a length statement, or both) as seen by the validator on a leaf, leaf-list, union "
-            "member, list key, typedef and typedef of typedef, together with the conjunction of the single-pattern answers of "
-            "ly_pattern_match() (TypeSet); the four entry points agree (EntryPoints oracle, incl. XPath re-match() and the yangre process).",
-    "note": "Proved: the reference semantics and the rewrite. NOT proved, only tied by running both: that PCRE2 gives the rewritten "
-            "text the XSD meaning (PCRE2 is external). So 'libyang accepts s for p iff s is in the XSD language of p' holds as far "
-            "as the Match comparison explored it, minus the listed known findings (known_findings.d/regex.json: \\w, \\i \\c \\I \\C, "
-            "class subtraction, POSIX-like brackets, \\P{IsX}, six shadowed block names, Specials, the bracket counter after an "
-            "escaped backslash, '.' and CR, \\s under UCP) - these are genuine deviations of libyang from XSD, each replayed from its "
-            "witness on every run. yangre is run for a quarter of the EntryPoints cases (one process per pair); ASan/UBSan runs "
-            "the former out-of-bounds inputs of the block rewrite (RewriteUB). The YangreModes oracle runs the yangre binary of the "
-            "same build (vlib builds the library with ENABLE_TOOLS=ON; impl/t_regex.c finds it as ../yangre) in command-line mode "
-            "and in file mode (LF, CRLF, no final line end) on pattern sets with invert-match and strings with blanks, tabs, CR, "
-            "non-ASCII and the empty string; the two defects of the file parser found this way are fixed (5322449) and stay as regression cases. The "
-            "compile step from a pattern expression to a PCRE2 code is abstract in the pattern-set theorem (oracle-level tie).",
+            "language, for every regular expression AST and string (C18_match_correct). (2) The textual rewrite libyang applies "
+            "before PCRE2, a model transcribed from lys_compile_type_pattern_check() and "
+            "lys_compile_pattern_chblocks_xmlschema2perl(), for patterns as byte strings without NUL: for EVERY pattern it ends with "
+            "a text or one of the code's three errors - no undefined-behaviour class, the model's fuel never runs out "
+            "(C18_rewrite_total, C18_rewrite_no_ub); a pattern without \\p{Is is handed over unchanged (or rejected for a stray ']') "
+            "if, and when unchanged only if, every ^/$ in it stands inside brackets or after an unescaped backslash "
+            "(C18_rewrite_identity, corollary C18_rewrite_identity_noanchor); for patterns WITHOUT \\p{Is built from ordinary bytes, "
+            "escape pairs of any byte, flat bracket expressions and unescaped ^/$, exactly one backslash is inserted before each "
+            "unescaped ^/$ outside brackets and nothing else changes (C18_rewrite_caret_dollar); for a pattern with ONE block "
+            "\\p{IsNAME}, NAME one of the 78 table names the code's prefix lookup resolves to itself (C18_block_lookup: 84 entries, six "
+            "shadowed), not preceded by half an escape pair, the block is replaced by NAME's replacement text, with or without its "
+            "own brackets as the code's bracket counter says (C18_rewrite_block), which is 'outside / inside brackets' when no "
+            "escaped backslash precedes (C18_rewrite_block_depth); on every pattern without two backslashes in a row whose blocks "
+            "are all such names followed by '}' with a 19-byte replacement (not Specials) the rewrite EQUALS the intended one, "
+            "rewrite_spec (C18_rewrite_eq_spec). Refutations, by computed witnesses: the three defects still in the code "
+            "(C18_block_prefix_refuted, C18_block_specials_refuted, C18_block_depth_refuted) and two variant models that transcribe "
+            "seeded changes (C18_prev_byte_variant_refuted, C18_carried_depth_variant_refuted). (3) Pattern lists, over an ABSTRACT "
+            "matcher that does not fail on the value: lyplg_type_validate_patterns() accepts iff every pattern's match XOR its "
+            "inverted flag holds, a matcher error is passed on (C18_invert_match, C18_invert_match_error); with "
+            "lys_compile_type_patterns() and the string case of lys_compile_type_() transcribed, a typedef chain checks the patterns "
+            "of ALL levels, each with its own flag, and the last length stated, whichever levels have patterns, a length, both or "
+            "nothing (C18_invert_match_chain, C18_typeset_chain, C18_typeset_validate). Examples (C18_*_ex, C18_escaped_anchor_ex) "
+            "show the hypotheses are satisfiable and keep the inputs of the fixed defects 97840a6 and 0ef0929 as regressions. "
+            "Tie (T2, extracted model vs C on the same generated cases): the text reaching pcre2_compile(), byte for byte (Rewrite); "
+            "ly_pattern_match() and lyd_value_validate() vs the XSD reference on patterns generated from the XSD grammar - "
+            "exhaustive up to a small size bound over a small alphabet plus random larger ones (Match); pattern lists with "
+            "invert-match (MatchList); typedef chains of 1-4 levels with patterns and/or length per level, validated on leaf, "
+            "leaf-list, union member, list key, typedef and typedef of typedef, plus the conjunction of single-pattern answers "
+            "(TypeSet). Oracles: ly_pattern_match, validator, XPath re-match() and yangre agree (EntryPoints; yangre on a sample); "
+            "yangre -p and -f (LF, CRLF, no final line end) vs the library (YangreModes); ASan/UBSan on the former out-of-bounds "
+            "inputs of the block rewrite (RewriteUB).",
+    "note": "Proved: the reference semantics, the rewrite model, the pattern-list / typedef-chain logic. NOT proved, only tied by "
+            "running both sides: that PCRE2 gives the rewritten text the XSD meaning (PCRE2 is external; no PCRE semantics in Coq), "
+            "so 'libyang accepts s for p iff s is in the XSD language of p' holds only as far as Match explored it, minus the 16 "
+            "known findings of known_findings.d/regex.json (\\w on '_' and on symbols/marks; \\i \\I \\c \\C; class subtraction; "
+            "POSIX-like brackets; \\P{IsX}; the six shadowed block names; Specials; the bracket counter after an escaped backslash; "
+            "'.' and CR; \\s under UCP; PCRE2's match limit refusing non-members with an internal error and, on ambiguous counted "
+            "quantifiers, members) - genuine deviations from XSD, each replayed from its witness on every run. Fixed and kept as "
+            "regression cases: re-escaped-anchor (97840a6), re-block-index / out-of-bounds index (0ef0929), the two yangre -f "
+            "line-ending defects (5322449). Modelled (transcribed by hand, tied by T2): the two rewrite functions, "
+            "lyplg_type_validate_patterns(), the array construction of lys_compile_type_patterns(), length/pattern inheritance of the "
+            "string case of lys_compile_type_() and the length-before-patterns order of the string store. Oracle-level only: XPath "
+            "re-match() (xpath_re_match), yangre (tools/re/main.c), the union / list-key / leaf-list paths. Outside everything: "
+            "PCRE2 itself, ly_pattern_code_match(), error messages and app-tags, YIN/YANG quoting of pattern arguments, builds "
+            "without PCRE2_ENDANCHORED; the XSD reference knows categories, \\w \\d \\i \\c exactly for U+0000..U+00FF only, \\$ is "
+            "outside it (XSD 1.0).",
     "technique": "Coq proof (reference matcher vs denotational semantics; rewrite model theorems) + differential correspondence "
                  "(extracted OCaml vs C, rewritten text and match answers) + entry-point agreement and sanitizer oracles",
 }
